@@ -293,6 +293,8 @@ def check(run, P):
     classes = stmtmodel.statement_classes(P)
     c08.reads_writes(run, P, classes, "C02.readsets", "C02.readsets")
     c08._flow(run, P, classes, "C02.readsets")
+    from .c01 import _alias
+    _alias(run, "C08.mapper", "C02.readsets", lambda: c08._mapper_config(run, P))
 
     f, S, na_name, assign_tuple = summarise(P)
     loops = [(n, i) for k, n, i in S.events if k == "loop"]
